@@ -1330,12 +1330,26 @@ std::string Generator::GeneratorImpl::generateOperatorCode(const std::string &op
         //       right operand, are always parenthesised, e.g. "(a < b) == c", "a < (b < c)" and "(!a) < b", even where
         //       the precedence rules do not require it: "a < b < c" and "!a < b" do not have their mathematical meaning
         //       and C compilers warn about them (-Wparentheses, -Wlogical-not-parentheses).
+        //       A unary plus generates no code of its own, so what counts is the operand below it, e.g.
+        //       "+(a < b) < c" is also to be generated as "(a < b) < c".
 
         auto comparison = isRelationalOperator(ast);
-        auto leftNot = (astLeftChild->type() == AnalyserEquationAst::Type::NOT) && mProfile->hasNotOperator();
+        auto operand = [](AnalyserEquationAstPtr operandAst) {
+            while ((operandAst != nullptr)
+                   && (operandAst->type() == AnalyserEquationAst::Type::PLUS)
+                   && (operandAst->rightChild() == nullptr)
+                   && (operandAst->leftChild() != nullptr)) {
+                operandAst = operandAst->leftChild();
+            }
 
-        astLeftChildCode = parenthesisedIfNeeded(astLeftChildCode, (leftPrecedence > 0) && ((leftPrecedence < precedence) || (comparison && (leftNot || isRelationalOperator(astLeftChild)))));
-        astRightChildCode = parenthesisedIfNeeded(astRightChildCode, (rightPrecedence > 0) && ((rightPrecedence < precedence) || ((rightPrecedence == precedence) && !associative) || (comparison && isRelationalOperator(astRightChild))));
+            return operandAst;
+        };
+        auto leftOperand = operand(astLeftChild);
+        auto rightOperand = operand(astRightChild);
+        auto leftNot = (leftOperand->type() == AnalyserEquationAst::Type::NOT) && mProfile->hasNotOperator();
+
+        astLeftChildCode = parenthesisedIfNeeded(astLeftChildCode, (leftPrecedence > 0) && ((leftPrecedence < precedence) || (comparison && (leftNot || isRelationalOperator(leftOperand)))));
+        astRightChildCode = parenthesisedIfNeeded(astRightChildCode, (rightPrecedence > 0) && ((rightPrecedence < precedence) || ((rightPrecedence == precedence) && !associative) || (comparison && isRelationalOperator(rightOperand))));
     }
 
     return astLeftChildCode + op + astRightChildCode;
